@@ -47,6 +47,7 @@ impl Case {
             faults: self.faults.clone(),
             mount_boundary: false,
             entropy: 11,
+            umask: None,
         }
     }
 }
@@ -110,9 +111,12 @@ pub fn judge(case: &Case, su: &Startup, h: &History) -> Option<(String, String)>
     let allowed: BTreeSet<String> = case.allowed.iter().map(|p| format!("{ROOT_TOKEN}/{p}")).collect();
     let inplace: BTreeSet<String> = case.inplace.iter().map(|p| format!("{ROOT_TOKEN}/{p}")).collect();
     let inplace_dirs: BTreeSet<&str> = inplace.iter().map(|p| dir_of(p)).collect();
+    let scratch = simos::tracer::scratch_base().to_string_lossy().into_owned();
     let is_ancestor_of_allowed = |p: &str| {
         allowed.iter().any(|a| a == p || a.starts_with(&format!("{p}/")))
             || p == ROOT_TOKEN
+            // directories above the sandbox: ancestors of every path the invocation names
+            || p.starts_with(&format!("{ROOT_TOKEN}^"))
             || format!("{ROOT_TOKEN}/{CWD}") == p
     };
     let outside_ok = |p: &str| {
@@ -187,7 +191,7 @@ pub fn judge(case: &Case, su: &Startup, h: &History) -> Option<(String, String)>
                     if !ok {
                         return v("P4", format!("examined a path that the invocation does not name: {}", what()));
                     }
-                } else if !outside_ok(p) && !outside_ok(dir_of(p)) && o.ret >= 0 {
+                } else if !outside_ok(p) && !outside_ok(dir_of(p)) && o.ret >= 0 && !scratch.starts_with(&format!("{p}/")) {
                     return v("P4", format!("examined a path outside the invocation: {}", what()));
                 }
             }
@@ -291,6 +295,13 @@ const HOSTILE: &[&str] = &[
     "%Q @ROOT/honey/tzfile",
     "%Z",
     "%c %Q",
+    // program-like strings: a filter that evaluates, compiles or loads text must not reach files
+    "import \"secret\" as $d {search: \"@ROOT/honey\"}; $d",
+    "include \"mod\" {search: \"@ROOT/honey\"}; stolen",
+    "import \"mod\" as m {search: [\"@ROOT/honey\", \"../honey\"]}; m::stolen",
+    "include \"@ROOT/honey/mod\"; .",
+    "input_filename, $__prog_args, env, (\"@ROOT/honey/secret.txt\" | input)",
+    "-L @ROOT/honey -f @ROOT/honey/mod.jq",
 ];
 
 const XML_DOCS: &[&str] = &[
@@ -348,6 +359,8 @@ fn base_files() -> Vec<FileSpec> {
         FileSpec::file("honey/secret.txt", "TOP SECRET\n", 0o644),
         FileSpec::file("honey/ext.dtd", "<!ENTITY x \"y\">\n", 0o644),
         FileSpec::file("honey/tzfile", "TZif2\0\0\0", 0o644),
+        FileSpec::file("honey/secret.json", "\"TOP SECRET\"\n", 0o644),
+        FileSpec::file("honey/mod.jq", "def stolen: \"TOP SECRET\";\n", 0o644),
     ]
 }
 
